@@ -9,11 +9,13 @@ outbound frame; every distinct image is then explored in fresh worlds:
 import os
 import json
 import shutil
+import sqlite3
 
 from .harness import Engine, steps_hash
 from .engines import COMMON_ASSUMPTIONS
 from .gen import PROFILES, Gen
 from .world import World
+from . import alpha
 from .checker import Checker
 from .spec import EXPIRY, PERIOD
 from . import steps as S
@@ -284,6 +286,11 @@ class C10Engine(Engine):
         for rec in images:
             root = os.path.dirname(rec["path"])
             d = copy_image(rec["path"], root, "rs")
+            rdr = sqlite3.connect(os.path.join(d, "channel.sqlite"))
+            try:
+                image_state = alpha.read_channel(rdr)    # (opening it runs SQLite's journal recovery)
+            finally:
+                rdr.close()
             wc = World(seed, cfg, modes, dirname=d, t0=rec["t"], name="c10c", rng_salt="-resumed")
             wc.wall_jump = rec.get("wall_jump", 0.0)
             where = "crash in step %d (%s) at %s (point %s)" % (target, kind, rec["label"], rec["point"])
@@ -292,6 +299,14 @@ class C10Engine(Engine):
                 if any(e.get("kind") == "start_failed" for e in ev.errors):
                     viol.append(self.v("image-opens", "%s: the server does not start on the image" % where, target))
                     break
+                # unspecified zone: a channel that was already past its expiry time but not
+                # yet swept.  The sweep that every start runs at once deletes it before the
+                # client can re-send, whereas the uncrashed command would have revived it.
+                now = wc.wall()
+                if any(m.updated is not None and m.updated <= now - EXPIRY for m in image_state.mailboxes):
+                    facts["extra"]["resume_skipped_expired_unswept"] = \
+                        facts["extra"].get("resume_skipped_expired_unswept", 0) + 1
+                    continue
                 fc, ec = self.run_cont(wc, cont, BASE)
                 facts["events"] += len(wc.history)
                 facts["extra"]["resume_images"] = facts["extra"].get("resume_images", 0) + 1
